@@ -12,7 +12,7 @@ for name, edits in SPECS:
     files = sorted(set(e[0] for e in edits))
     exp = 'silent (negative control)' if '-NEG-' in name else 'caught'
     got = r.get('result', 'not run')
-    if r.get('baseline') not in (None, 'pass', 'skipped'):
+    if r.get('baseline') not in (None, 'pass', 'skipped', 'pass (earlier run)'):
         got = 'INVALID (repo tests %s)' % r.get('baseline')
     rows.append('| %s | %s | %s | %s | %s |' % (name, ', '.join(files), exp, got, (r.get('why') or '').replace('|', '/')[:90]))
 mt = '\n'.join(rows)
